@@ -161,12 +161,13 @@ static const uint32_t SHAPES[4][2] = { { 1, 1 }, { 3, 2 }, { 5, 1 }, { 33, 3 } }
 static const char* METAS[3] = { "", "{}", "{\"a\":1,\"b\":{\"c\":\"d\"}}" };
 static const double SCALES[3][2] = { { 1, 1 }, { 0.5, 2 }, { 0, 0 } };
 struct Cyc { int n, group, meta, scale, uri; };
-struct Spec { int kind, shape, type, ncyc; Cyc c[2]; int short_at = -1, short_kind = 0; /* one short/zero write at this pwrite index */ };
+struct Spec { int kind, shape, type, ncyc; Cyc c[2]; int short_at = -1, short_kind = 0; /* one short/zero write at this pwrite index */ int mix = 0; /* frame i has shape (shape + i) mod 4: frames of different sizes within one packet */ };
 static std::string spec_str(const Spec& s)
 {
     char b[200]; snprintf(b, sizeof b, "kind=%d,shape=%d,type=%d,cycles=%d", s.kind, s.shape, s.type, s.ncyc); std::string o = b;
     for (int i = 0; i < s.ncyc; ++i) { snprintf(b, sizeof b, ";n=%d,group=%d,meta=%d,scale=%d,uri=%d", s.c[i].n, s.c[i].group, s.c[i].meta, s.c[i].scale, s.c[i].uri); o += b; }
     if (s.short_at >= 0) { snprintf(b, sizeof b, ";short=%d,%d", s.short_at, s.short_kind); o += b; }
+    if (s.mix) o += ";mix=1";
     return o;
 }
 static bool parse_spec(const std::string& t, Spec& s)
@@ -177,6 +178,7 @@ static bool parse_spec(const std::string& t, Spec& s)
     for (int i = 0; i < s.ncyc; ++i) { p = t.find(';', p); if (p == std::string::npos) return false; ++p; if (sscanf(t.c_str() + p, "n=%d,group=%d,meta=%d,scale=%d,uri=%d", &s.c[i].n, &s.c[i].group, &s.c[i].meta, &s.c[i].scale, &s.c[i].uri) != 5) return false; }
     s.short_at = -1; s.short_kind = 0;
     size_t q = t.find(";short="); if (q != std::string::npos) sscanf(t.c_str() + q, ";short=%d,%d", &s.short_at, &s.short_kind);
+    s.mix = t.find(";mix=1") != std::string::npos;
     return true;
 }
 
@@ -214,7 +216,8 @@ static std::string execute(const Spec& s)
         std::vector<uint8_t> packet;
         bool failed_append = false; int ok_frames = 0, pk = 0, pk_frames = 0;
         for (int i = 0; i < c.n; ++i) {
-            Expect e; e.spec = { SHAPES[s.shape][0], SHAPES[s.shape][1], s.type, (uint64_t)i };
+            const int sh = s.mix ? (s.shape + i) % 4 : s.shape;
+            Expect e; e.spec = { SHAPES[sh][0], SHAPES[sh][1], s.type, (uint64_t)i };
             std::vector<uint8_t> f = make_frame(e.spec, ci + 1);
             const struct VideoFrame* v = (const struct VideoFrame*)f.data();
             size_t img = (size_t)e.spec.w * e.spec.h * type_bytes(e.spec.type);
@@ -376,6 +379,8 @@ int main(int argc, char** argv)
                                         if (scale != 0 || uri != 0 || (shape != 1 && shape != 3)) continue; // second-cycle variants on a sub-product
                                         for (int n2 = 1; n2 <= 2; ++n2) for (int meta2 = 0; meta2 < 3; ++meta2) { Spec t = s; t.ncyc = 2; t.c[1] = { n2, 0, meta2, 0, 0 }; todo.push_back(t); }
                                     }
+                                    // frames of different shapes (and sizes) within one acquisition and within one packet
+                                    if (cycles == 1 && n >= 2 && meta == 2 && scale == 0 && uri == 0) { Spec t = s; t.mix = 1; todo.push_back(t); }
                                     // one short / 1-byte / zero write at every pwrite index, on a sub-product (the OS may complete any write partially)
                                     if (cycles == 1 && meta == 2 && scale == 0 && uri == 0 && (shape == 1 || shape == 3) && (type == 0 || type == 4) && n == 2) {
                                         Spec base = s; execute(base); int W = g_last_writes;
